@@ -138,6 +138,37 @@ pub(crate) fn check_compare_address(class_a: u16, class_b: u16, a6: bool, b6: bo
     }
 }
 
+/// Assumed contract of DnsOutPacket::parse_escaped_name (unit `encoder`): labels are non-empty, none longer
+/// than the name's longest unescaped-dot-free run allows (here: than the name), wire size <= name length + 1.
+/// Kani does not finish on symbolic strings (measured: 4 bytes > 120 s), so this is a BOUNDED stand-in by
+/// exhaustive execution: every name of 0..=7 bytes over the alphabet { 'a', '.', '\\', 'é' }.
+pub(crate) fn exec_parse_escaped_name_all() -> usize {
+    let alpha = ["a", ".", "\\", "é"];
+    let mut count = 0usize;
+    let mut names: Vec<String> = vec![String::new()];
+    for _len in 0..=7 {
+        let mut next = Vec::new();
+        for n in names.iter() {
+            let labels = DnsOutPacket::parse_escaped_name(n);
+            let mut wire = 0usize;
+            for l in labels.iter() {
+                assert!(!l.is_empty(), "empty label for {:?}", n);
+                assert!(l.len() <= n.len(), "label longer than name for {:?}", n);
+                wire += l.len() + 1;
+            }
+            assert!(wire <= n.len() + 1, "wire size {} for {:?}", wire, n);
+            count += 1;
+            if n.chars().count() < 7 {
+                for a in alpha.iter() {
+                    next.push(format!("{}{}", n, a));
+                }
+            }
+        }
+        names = next;
+    }
+    count
+}
+
 #[cfg(kani)]
 mod proofs {
     use super::*;
